@@ -437,8 +437,11 @@ func (p *parseVisitor) VisitSaveFromAccount(c *parser2.SaveFromAccountContext) *
 			return LogicError(c, fmt.Errorf(
 				"save monetary all from account: the first expression should be of type 'asset' instead of '%s'", typ))
 		}
+		p.PushAddress(*addr)
 	} else if mon := c.GetMon(); mon != nil {
-		typ, addr, compErr = p.VisitExpr(mon, false)
+		// the amount is an expression like any other: evaluate all of it (a sum or a difference used to be cut down
+		// to its left operand)
+		typ, _, compErr = p.VisitExpr(mon, true)
 		if compErr != nil {
 			return compErr
 		}
@@ -447,7 +450,6 @@ func (p *parseVisitor) VisitSaveFromAccount(c *parser2.SaveFromAccountContext) *
 				"save monetary from account: the first expression should be of type 'monetary' instead of '%s'", typ))
 		}
 	}
-	p.PushAddress(*addr)
 
 	typ, addr, compErr = p.VisitExpr(c.GetAcc(), false)
 	if compErr != nil {
